@@ -6,7 +6,9 @@ import (
 	"reflect"
 	"sort"
 	"strings"
+	"sync/atomic"
 	"testing"
+	"time"
 
 	"github.com/enbility/spine-go/api"
 	"github.com/enbility/spine-go/model"
@@ -289,6 +291,106 @@ func (m *machine) expectFanout(t *rapid.T, what string, si int, fn model.Functio
 	}
 }
 
+// overlappingChanges: the data of a second server feature changes while the notifications of a first
+// change are being sent (the harness owns the schedule: the second SetData runs while the writer of the
+// first notification is held). Every peer gets, per changed feature, one notification for each of
+// its client features subscribed to that feature - from that feature, with that feature's data.
+func (m *machine) overlappingChanges(t *rapid.T) {
+	n := len(m.w.Servers)
+	si1 := rapid.IntRange(0, n-1).Draw(t, "server1")
+	si2 := (si1 + rapid.IntRange(1, n-1).Draw(t, "server2")) % n
+	type change struct {
+		si int
+		f  *gen.Func
+	}
+	chs := []change{{si1, gen.ByFunction(m.w.Servers[si1].Writable)}, {si2, gen.ByFunction(m.w.Servers[si2].Writable)}}
+	payloads := make([]any, 2)
+	for i, c := range chs {
+		u := refmodel.Update{Items: listgen.Items(t, c.f, 3, gen.Opt{}, fmt.Sprintf("items%d", i+1))}
+		payloads[i] = refmodel.Payload(c.f, u.Items)
+		m.state[fmt.Sprintf("%d/%s", c.si, c.f.Fn)] = refmodel.Fold(c.f, nil, u)
+	}
+	for _, p := range m.w.Peers {
+		p.Cap.Drain()
+	}
+	var fired atomic.Bool
+	inside := false
+	second := func() { m.w.Servers[si2].F.SetData(chs[1].f.Fn, payloads[1]) }
+	for _, p := range m.w.Peers {
+		p.Cap.SetOnWrite(func([]byte) {
+			if !fired.CompareAndSwap(false, true) {
+				return
+			}
+			done := make(chan struct{})
+			go func() { second(); close(done) }()
+			select {
+			case <-done:
+				inside = true
+			case <-time.After(5 * time.Second): // not a verdict: the second change simply comes later
+			}
+		})
+	}
+	m.w.Servers[si1].F.SetData(chs[0].f.Fn, payloads[0])
+	for _, p := range m.w.Peers {
+		p.Cap.SetOnWrite(nil)
+	}
+	if !fired.Load() {
+		second() // nobody is subscribed to the first feature
+	}
+	m.w.SyncQuiet(10 * time.Second)
+	m.logf("SetData server %d, and SetData server %d while the first notification of that is written (overlap=%v)", si1, si2, inside)
+	world.Label(fmt.Sprintf("overlap/inside-fan-out/%v", inside))
+	// per peer: (source server, destination client) -> count
+	for pi, p := range m.w.Peers {
+		want, got := map[string]int{}, map[string]int{}
+		for k := range m.subs {
+			for _, c := range chs {
+				if k.Peer == pi && k.Server == regs.ServerRefs[c.si].String() {
+					want[k.Server+" -> "+k.Client]++
+				}
+			}
+		}
+		for _, s := range p.Cap.Drain() {
+			if s.Classifier() != model.CmdClassifierTypeNotify {
+				world.Fail(t, "C08/unexpected-datagram/overlapping-changes", "peer%d received a %s%s", pi+1, s.Classifier(), m.history())
+			}
+			src, dst := s.D.Header.AddressSource, s.D.Header.AddressDestination
+			if src == nil || dst == nil || dst.Feature == nil || dst.Device == nil || *dst.Device != p.Addr {
+				world.Fail(t, "C08/notify-destination/overlapping-changes", "notification on peer%d's connection goes from %v to %v%s", pi+1, src, dst, m.history())
+			}
+			var from *change
+			for i := range chs {
+				if reflect.DeepEqual(src, m.w.Servers[chs[i].si].F.Address()) {
+					from = &chs[i]
+				}
+			}
+			if from == nil {
+				world.Fail(t, "C08/notify-source/overlapping-changes", "notification source %v is none of the two changed features%s", src, m.history())
+			}
+			cmd := s.Cmd()
+			data, err := cmd.Data()
+			if err != nil || data.Function == nil || *data.Function != from.f.Fn {
+				world.Fail(t, "C08/notify-function/overlapping-changes", "the notification from server %d does not carry its changed function %s%s", from.si, from.f.Fn, m.history())
+			}
+			if js, stored := world.JSON(data.Value), world.JSON(m.w.Servers[from.si].F.DataCopy(from.f.Fn)); js != stored {
+				world.Fail(t, "C08/notify-payload/overlapping-changes", "the notification from server %d differs from that feature's data\n sent:   %s\n stored: %s%s", from.si, js, stored, m.history())
+			}
+			got[regs.ServerRefs[from.si].String()+" -> "+refOfAddr(dst)]++
+		}
+		if !reflect.DeepEqual(got, want) {
+			kind := "missing-or-duplicate"
+			for k := range got {
+				if want[k] == 0 {
+					kind = "to-unsubscribed"
+				}
+			}
+			world.Fail(t, "C08/fanout/"+kind+"/overlapping-changes", "two features changed at the same time (servers %d and %d): peer%d got the notifications %v, its subscriptions ask for %v%s", si1, si2, pi+1, got, want, m.history())
+		}
+	}
+	m.change++
+	m.ops = append(m.ops, "overlapping-changes")
+}
+
 func (m *machine) drawFn(t *rapid.T, si int) *gen.Func {
 	s := m.w.Servers[si]
 	fn := s.Writable
@@ -438,6 +540,7 @@ func TestSubscriptions(t *testing.T) {
 			"subscribe2":  m.subscribe,
 			"unsubscribe": m.unsubscribe,
 			"localChange": m.localChange,
+			"overlapping": m.overlappingChanges,
 			"bind":        m.bind,
 			"remoteWrite": m.remoteWrite,
 		})
